@@ -380,10 +380,28 @@ func boolOnEdge(b *ssa.BasicBlock, succIdx int, v ssa.Value) (bool, bool) {
 	}
 }
 
-// errNilEdge: does leaving b via succIdx establish `v == nil` for error/pointer value v?
+// valEq: a and b denote the same value: identical SSA values, or two loads of the same captured /
+// local variable (free variable or Alloc cell; the repository's closures never reassign those
+// between a test and its use).
+func valEq(a, b ssa.Value) bool {
+	if a == b {
+		return true
+	}
+	ua, ok1 := a.(*ssa.UnOp)
+	ub, ok2 := b.(*ssa.UnOp)
+	if ok1 && ok2 && ua.Op == token.MUL && ub.Op == token.MUL && ua.X == ub.X {
+		switch ua.X.(type) {
+		case *ssa.FreeVar, *ssa.Alloc:
+			return true
+		}
+	}
+	return false
+}
+
+// nilOnEdge: does leaving b via succIdx establish `v == nil`?
 func nilOnEdge(b *ssa.BasicBlock, succIdx int, v ssa.Value) bool {
 	for _, f := range eqOnEdge(b, succIdx) {
-		if (f.x == v && isNilConst(f.y)) || (f.y == v && isNilConst(f.x)) {
+		if (valEq(f.x, v) && isNilConst(f.y)) || (valEq(f.y, v) && isNilConst(f.x)) {
 			return true
 		}
 	}
